@@ -141,6 +141,76 @@ pub fn handle(op: &str, a: &[&str]) -> Option<String> {
                 first.map(|x| x.to_string()).unwrap_or("-".into())
             ))
         }
+        // `abort_scan <n> <alg> <threads|0> <maxpolls>`: one run with a predicate that never fires counts the
+        // polls P of the run; then one run per flip instant k = 0..=min(P, maxpolls) (predicate true from its
+        // k-th poll on). answer: `polls=<P> runs=<k> bad=<k:kind,...|-> maxlat_ms=<ms> incomplete=<runs that left a composite or failed>`
+        "abort_scan" => {
+            let n = uint_of(a.first()?)?;
+            let alg = algo_of(a.get(1)?)?;
+            let threads: usize = a.get(2)?.parse().ok()?;
+            let maxpolls: u64 = a.get(3)?.parse().ok()?;
+            let run = |limit: Option<u64>| -> (String, u64, u64) {
+                let mut prefs = Preferences::default();
+                prefs.verbosity = Verbosity::Silent;
+                if threads > 0 {
+                    prefs.threads = Some(threads);
+                }
+                let polls = Arc::new(AtomicU64::new(0));
+                let first_true_us = Arc::new(AtomicU64::new(0));
+                let start = Instant::now();
+                {
+                    let (polls, ft) = (polls.clone(), first_true_us.clone());
+                    prefs.should_abort = Some(Box::new(move || {
+                        let c = polls.fetch_add(1, Ordering::SeqCst);
+                        let fire = limit.map_or(false, |l| c >= l);
+                        if fire {
+                            let now = start.elapsed().as_micros() as u64;
+                            let _ = ft.compare_exchange(0, now.max(1), Ordering::SeqCst, Ordering::SeqCst);
+                        }
+                        fire
+                    }));
+                }
+                let r = std::panic::catch_unwind(std::panic::AssertUnwindSafe(|| factor(n, alg, &prefs)));
+                let end = start.elapsed().as_micros() as u64;
+                let ft = first_true_us.load(Ordering::SeqCst);
+                let lat = if ft == 0 { 0 } else { (end - ft.min(end)) / 1000 };
+                let kind = match r {
+                    Ok(Ok(v)) => {
+                        let prod = v.iter().fold(yamaquasi::Uint::ONE, |acc, x| acc * *x);
+                        if prod != n || v.windows(2).any(|w| w[0] > w[1]) {
+                            "wrong".to_string()
+                        } else if v.iter().all(|&x| yamaquasi::pseudoprime(x)) {
+                            "ok".to_string()
+                        } else {
+                            "partial".to_string()
+                        }
+                    }
+                    Ok(Err(_)) => "failure".to_string(),
+                    Err(_) => "panic".to_string(),
+                };
+                (kind, polls.load(Ordering::SeqCst), lat)
+            };
+            let (k0, p, _) = run(None);
+            let mut bad = vec![];
+            if k0 != "ok" && k0 != "partial" && k0 != "failure" {
+                bad.push(format!("noabort:{k0}"));
+            }
+            let (mut maxlat, mut incomplete, mut runs) = (0u64, 0u64, 0u64);
+            for k in 0..=p.min(maxpolls) {
+                let (kind, _, lat) = run(Some(k));
+                runs += 1;
+                maxlat = maxlat.max(lat);
+                match kind.as_str() {
+                    "ok" => {}
+                    "partial" | "failure" => incomplete += 1,
+                    other => bad.push(format!("{k}:{other}")),
+                }
+            }
+            Some(format!(
+                "polls={p} runs={runs} bad={} maxlat_ms={maxlat} incomplete={incomplete}",
+                if bad.is_empty() { "-".to_string() } else { bad.join(",") }
+            ))
+        }
         // `rho_fail_search <plo> <phi>`: all n = p*q with primes plo <= p <= q < phi: does pollard_rho::rho fail?
         "rho_fail_search" => {
             let plo: u64 = a.first()?.parse().ok()?;
